@@ -462,7 +462,7 @@ def _halfturn(refdet):
 
 
 def check_detector(det, refdet, kind, dlo, dhi, dcomps, cb, strata,
-                   scale_extra=0.0, amp=1.0):
+                   scale_extra=0.0, amp=1.0, probe=True):
     """All detector clauses; returns ``{index: surface point}`` of the
     single evaluations (reused by the geometry clauses)."""
     dname = DET_CLS[kind]
@@ -486,6 +486,8 @@ def check_detector(det, refdet, kind, dlo, dhi, dcomps, cb, strata,
     surf, deriv, normal, meas = {}, {}, {}, {}
     if _halfturn(refdet):
         strata.append('curved-axes:halfturn')
+        if not probe:
+            raise _Excluded('C19-K5')
     pre = 'C19|raise-single'
     for k, (idx, p) in enumerate(_entries(dcomps, shape)):
         arg = _single_arg(p)
@@ -572,22 +574,33 @@ def check_detector(det, refdet, kind, dlo, dhi, dcomps, cb, strata,
                                                     dq[j].tolist(),
                                                     fd.tolist(), err, tol_fd))
             strata.append('fd-checked')
-    # vectorised
-    if shape != ():
-        pc = _patclass(None, dcomps)
-        varg = _vec_arg(dcomps)
-        pre = 'C19|vec-raise'
-        reg = '{}|{}'.format(dname, pc)
-        got = _call(pre, reg, det.surface, varg)
-        _cmp_vectorised('surface', got, shape, (n,), surf, tol, dname, pc)
-        got = _call(pre, reg, det.surface_deriv, varg)
-        _cmp_vectorised('surface_deriv', got, shape,
-                        (n,) if D == 1 else (2, 3), deriv, tol, dname, pc)
-        got = _call(pre, reg, det.surface_normal, varg)
-        _cmp_vectorised('surface_normal', got, shape, (n,), normal,
-                        K_TOL * EPS, dname, pc)
-        strata.append('det-vectorised:' + pc)
-    return surf, meas
+    return {'surface': surf, 'deriv': deriv, 'normal': normal,
+            'measure': meas, 'tol': tol}
+
+
+def check_detector_vec(det, kind, dcomps, single, strata):
+    """Vectorised detector methods against the single evaluations."""
+    shape = _bshape(dcomps)
+    if shape == ():
+        return
+    dname = DET_CLS[kind]
+    D = len(dcomps)
+    n = D + 1
+    tol = single['tol']
+    pc = _patclass(None, dcomps)
+    varg = _vec_arg(dcomps)
+    pre = 'C19|vec-raise'
+    reg = '{}|{}'.format(dname, pc)
+    got = _call(pre, reg, det.surface, varg)
+    _cmp_vectorised('surface', got, shape, (n,), single['surface'], tol,
+                    dname, pc)
+    got = _call(pre, reg, det.surface_deriv, varg)
+    _cmp_vectorised('surface_deriv', got, shape, (n,) if D == 1 else (2, 3),
+                    single['deriv'], tol, dname, pc)
+    got = _call(pre, reg, det.surface_normal, varg)
+    _cmp_vectorised('surface_normal', got, shape, (n,), single['normal'],
+                    K_TOL * EPS, dname, pc)
+    strata.append('det-vectorised:' + pc)
 
 
 def check_detector_measure_vec(det, kind, dcomps, meas, strata):
@@ -632,6 +645,51 @@ def check_detector_bounds(det, kind, dlo, dhi, cb, refdet, strata):
 
 # --------------------------------------------------------------------------
 # geometry clauses
+
+_KNOWN = None
+
+
+def _is_known(sig):
+    """Known-finding signatures are used ONLY to choose which of several
+    violations of one case is reported (an unknown one wins), never to
+    suppress anything."""
+    global _KNOWN
+    if _KNOWN is None:
+        from vlib import runner
+        _KNOWN = runner.load_known(PROPERTY)
+    from vlib import runner
+    return runner.match_known(sig, _KNOWN) is not None
+
+
+class _Excluded(Exception):
+    """The case lies in the input region of a known finding and the
+    descriptor does not ask for probing it."""
+
+    def __init__(self, fid):
+        Exception.__init__(self, fid)
+        self.fid = fid
+
+
+class _Collector(object):
+    """Evaluate independent clause blocks; report an unknown violation in
+    preference to one that matches a known finding (no masking)."""
+
+    def __init__(self):
+        self.found = []
+
+    def run(self, f, *args, **kwargs):
+        try:
+            f(*args, **kwargs)
+        except Violation as v:
+            self.found.append(v)
+
+    def finish(self):
+        for v in self.found:
+            if not _is_known(v.signature):
+                raise v
+        if self.found:
+            raise self.found[0]
+
 
 def _limits(pds):
     return (np.array([float(p['min']) for p in pds]),
@@ -818,8 +876,21 @@ def run_geom(desc):
     # ---- detector clauses --------------------------------------------------
     # the reference detector uses ODL's own (already verified) unit axes so
     # that the small error of the default rotation does not enter twice
-    _, meas = check_detector(geom.detector, ref.det, kind, dlo, dhi, dcomps,
-                             cb, strata, amp=amp)
+    probe = bool(desc.get('probe', True))
+    strata.append('probe-known-regions:' + str(probe))
+    notes = {}
+
+    def known_region(fid, cond):
+        """Input region of a known finding: evaluated only in probing
+        cases (and by the finding's own regression replay)."""
+        if cond and not probe:
+            notes['excluded:' + fid] = notes.get('excluded:' + fid, 0) + 1
+            return True
+        return False
+
+    dsingle = check_detector(geom.detector, ref.det, kind, dlo, dhi, dcomps,
+                             cb, strata, amp=amp, probe=probe)
+    meas = dsingle['measure']
 
     # ---- single-parameter evaluation vs reference and relations -----------
     ev = _GeomEval(geom, cname, M, D)
@@ -927,11 +998,14 @@ def run_geom(desc):
             else:
                 strata.append('degenerate:source-on-detector')
 
-    # ---- vectorised evaluation vs the stack of single evaluations ---------
+    # ---- independent clause blocks: every block is evaluated, the
+    # violation reported for the case is chosen by `_Collector.finish` ----
+    col = _Collector()
     pc_m = _patclass(mcomps, None)
     pc = _patclass(mcomps, dcomps)
     pre = 'C19|vec-raise'
-    if shape_m != ():
+
+    def vec_motion():
         marg = _vec_arg(mcomps)
         todo = [('rotation_matrix', (n, n)), ('det_refpoint', (n,)),
                 (axes_name, (n,) if n == 2 else (2, 3))]
@@ -945,7 +1019,8 @@ def run_geom(desc):
                             tol if tail == (n,) and method != axes_name
                             else tol_dir, cname, pc_m)
         strata.append('vec-motion:' + pc_m)
-    if shape != ():
+
+    def vec_joint():
         marg, darg = _vec_arg(mcomps), _vec_arg(dcomps)
         calls = [('det_point_position', {})]
         calls += ([('det_to_src', {}), ('det_to_src', {'normalized': False})]
@@ -959,58 +1034,83 @@ def run_geom(desc):
                             got, shape, (n,), singles, tol, cname, pc)
         strata.append('vec-joint:' + pc)
 
-    # ---- group law (single-axis geometries) --------------------------------
+    def group_law():
+        ab = _group_angles(float(mlo[0]), float(mhi[0]),
+                           float(desc['group'][0]), float(desc['group'][1]),
+                           cb)
+        if ab is None:
+            return
+        a, b = ab
+        Ra = ev.get('rotation_matrix', [a])
+        Rb = ev.get('rotation_matrix', [b])
+        Rab = ev.get('rotation_matrix', [a + b])
+        _require(Rab, Ra.dot(Rb), K_TOL * EPS * (1 + abs(a) + abs(b)),
+                 'C19|rot-group|{}|{}'.format(cname, region),
+                 'R({}+{}) vs R(a) R(b)'.format(a, b))
+        strata.append('group-law')
+
+    def bounds():
+        ext = mhi - mlo
+        mout = [float(mhi[0] + 0.37 * ext[0] + 0.1)] + \
+            [float(0.5 * (a + b)) for a, b in zip(mlo[1:], mhi[1:])]
+        for method in ('rotation_matrix', 'det_refpoint'):
+            f = getattr(geom, method)
+            if cb:
+                try:
+                    f(_single_arg(mout))
+                except ValueError:
+                    continue
+                raise Violation(
+                    'C19|bounds|{}|{}|no-raise'.format(method, cname),
+                    'angle {} outside {}..{} accepted with '
+                    'check_bounds=True'.format(mout, mlo, mhi))
+            got = _call('C19|bounds|raise-unchecked', cname, f,
+                        _single_arg(mout))
+            want = (ref.rot(_single_arg(mout)) if method == 'rotation_matrix'
+                    else ref.refpoint(_single_arg(mout)))
+            _require(got, want, K_TOL * EPS * (S + abs(ref.pitch) * 3) *
+                     (1 + abs(mout[0])) * amp,
+                     'C19|bounds|{}|{}|value'.format(method, cname),
+                     method + ' outside the partition, check_bounds=False')
+        check_detector_bounds(geom.detector, kind, dlo, dhi, cb, ref.det,
+                              strata)
+
+    pc_d = _patclass(None, dcomps)
+    k3 = kind in ('cyl', 'sph') and 'within-d' in pc_d
+    k6 = M == 3 and _bshape(mcomps) != _bshape(mcomps[:2])
+    moved = bool(np.any(ref.t != 0)) and cls in ('par2d', 'par3d_axis')
+    if not known_region('C19-K3', k3):
+        col.run(check_detector_vec, geom.detector, kind, dcomps, dsingle,
+                strata)
+    if shape_m != () and not known_region('C19-K6', k6):
+        col.run(vec_motion)
+    if shape != () and not (known_region('C19-K2', 'rankmix' in pc) or
+                            known_region('C19-K3', k3) or
+                            known_region('C19-K6', k6)):
+        col.run(vec_joint)
     if M == 1:
-        ab = _group_angles(float(mlo[0]), float(mhi[0]), float(desc['group'][0]),
-                           float(desc['group'][1]), cb)
-        if ab is not None:
-            a, b = ab
-            Ra = ev.get('rotation_matrix', [a])
-            Rb = ev.get('rotation_matrix', [b])
-            Rab = ev.get('rotation_matrix', [a + b])
-            _require(Rab, Ra.dot(Rb), K_TOL * EPS * (1 + abs(a) + abs(b)),
-                     'C19|rot-group|{}|{}'.format(cname, region),
-                     'R({}+{}) vs R(a) R(b)'.format(a, b))
-            strata.append('group-law')
-
-    # ---- bounds ---------------------------------------------------------------
-    ext = mhi - mlo
-    mout = [float(mhi[0] + 0.37 * ext[0] + 0.1)] + \
-        [float(0.5 * (a + b)) for a, b in zip(mlo[1:], mhi[1:])]
-    for method in ('rotation_matrix', 'det_refpoint'):
-        f = getattr(geom, method)
-        if cb:
-            try:
-                f(_single_arg(mout))
-            except ValueError:
-                continue
-            raise Violation('C19|bounds|{}|{}|no-raise'.format(method, cname),
-                            'angle {} outside {}..{} accepted with '
-                            'check_bounds=True'.format(mout, mlo, mhi))
-        got = _call('C19|bounds|raise-unchecked', cname, f, _single_arg(mout))
-        want = (ref.rot(_single_arg(mout)) if method == 'rotation_matrix'
-                else ref.refpoint(_single_arg(mout)))
-        _require(got, want, K_TOL * EPS * (S + abs(ref.pitch) * 3) *
-                 (1 + abs(mout[0])) * amp,
-                 'C19|bounds|{}|{}|value'.format(method, cname),
-                 method + ' outside the partition, check_bounds=False')
-    check_detector_bounds(geom.detector, kind, dlo, dhi, cb, ref.det, strata)
-
-    # ---- non-broadcastable shapes must raise -------------------------------
+        col.run(group_law)
+    col.run(bounds)
     bad = pat.get('bad')
     if bad:
-        _check_bad(geom, bad, cname, dname, mlo, mhi, dlo, dhi, M, D)
+        col.run(_check_bad, geom, bad, cname, dname, mlo, mhi, dlo, dhi, M, D)
         strata.append('bad-shapes:' + bad)
-
-    # ---- slicing ---------------------------------------------------------------
     if desc.get('slice') is not None:
-        _check_slice(geom, ref, desc['slice'], cname, argcls, n, M, D, tol,
-                     dlo, dhi, divergent, strata, passed)
-    else:
-        _check_purity(passed, cname)
-
-    # vectorised surface_measure last (known finding region)
-    check_detector_measure_vec(geom.detector, kind, dcomps, meas, strata)
+        if not (known_region('C19-K9', cls == 'cone' and kind in ('cyl',
+                                                                   'sph'))
+                or known_region('C19-K7', moved and argcls == 'array')):
+            sl = dict(desc['slice'])
+            if sl.get('repeat') and known_region('C19-K7', moved):
+                sl['repeat'] = False
+            col.run(_check_slice, geom, ref, sl, cname, argcls, n, M,
+                    D, tol, dlo, dhi, divergent, strata, passed,
+                    purity=probe)
+    elif not known_region('C19-K7/K8', bool(passed)):
+        col.run(_check_purity, passed, cname)
+    if not known_region('C19-K4', D == 2 and 'within-d' in pc_d):
+        col.run(check_detector_measure_vec, geom.detector, kind, dcomps,
+                meas, strata)
+    col.finish()
 
     generic = (mode == 'frommatrix' or any(
         g.get(k + '_mode') not in (None, 'default')
@@ -1018,7 +1118,7 @@ def run_geom(desc):
                   'det_axes_init')))
     nontriv = bool(generic or shape != () or kind in ('circ', 'cyl', 'sph')
                    or g.get('pitch') or src_f or det_f)
-    return Outcome('ok', strata=strata, nontrivial=nontriv)
+    return Outcome('ok', strata=strata, nontrivial=nontriv, notes=notes)
 
 
 def _check_purity(passed, cname):
@@ -1131,7 +1231,7 @@ def _cmp_snapshot(new, old, tol, sig, what):
 
 
 def _check_slice(geom, ref, sl, cname, argcls, n, M, D, tol, dlo, dhi,
-                 divergent, strata, passed):
+                 divergent, strata, passed, purity=True):
     ai, index = _slice_index(sl)
     strata.append('slice:' + ('int' if sl['a'][0] == 'i' else
                               'step' if sl['a'][3] not in (None, 1)
@@ -1172,7 +1272,8 @@ def _check_slice(geom, ref, sl, cname, argcls, n, M, D, tol, dlo, dhi,
     after = _snapshot(geom, sub, dpts, divergent, n)
     _cmp_snapshot(after, before, tol / 8, psig.format('parent-changed') + '|{}',
                   'the original geometry after slicing')
-    _check_purity(passed, cname)
+    if purity:
+        _check_purity(passed, cname)
     if sl.get('repeat'):
         s2 = _call('C19|slice-raise', cname + '|' + type(geom.detector).__name__,
                    geom.__getitem__, index)
@@ -1209,9 +1310,25 @@ def run_detector(desc):
     refdet = geomref.RefDetector(kind, dd['axes'], dd.get('radius'))
     dlo, dhi = _limits(desc['dpart'])
     dcomps = _params_from_fracs(pat['d'], dlo, dhi)
-    _, meas = check_detector(det, refdet, kind, dlo, dhi, dcomps, cb, strata)
-    check_detector_bounds(det, kind, dlo, dhi, cb, refdet, strata)
-    if pat.get('bad') == 'within-d' and len(dlo) == 2:
+    probe = bool(desc.get('probe', True))
+    strata.append('probe-known-regions:' + str(probe))
+    notes = {}
+    dsingle = check_detector(det, refdet, kind, dlo, dhi, dcomps, cb, strata,
+                             probe=probe)
+    meas = dsingle['measure']
+    within = _within(dcomps)
+
+    def known_region(fid, cond):
+        if cond and not probe:
+            notes['excluded:' + fid] = 1
+            return True
+        return False
+    col = _Collector()
+    if not known_region('C19-K3', kind in ('cyl', 'sph') and within):
+        col.run(check_detector_vec, det, kind, dcomps, dsingle, strata)
+    col.run(check_detector_bounds, det, kind, dlo, dhi, cb, refdet, strata)
+
+    def bad_within():
         d3 = dlo[0] + np.array([0.2, 0.5, 0.8]) * (dhi[0] - dlo[0])
         d4 = dlo[1] + np.array([0.2, 0.4, 0.6, 0.8]) * (dhi[1] - dlo[1])
         for name in ('surface', 'surface_deriv'):
@@ -1224,11 +1341,16 @@ def run_detector(desc):
                             'non-broadcastable parameter shapes accepted, '
                             'result shape {}'.format(_shape_of(out)))
         strata.append('bad-shapes:within-d')
-    check_detector_measure_vec(det, kind, dcomps, meas, strata)
+
+    if pat.get('bad') == 'within-d' and len(dlo) == 2:
+        col.run(bad_within)
+    if not known_region('C19-K4', len(dlo) == 2 and within):
+        col.run(check_detector_measure_vec, det, kind, dcomps, meas, strata)
+    col.finish()
     nontriv = (dd.get('axes_mode') != 'default' or kind in ('circ', 'cyl',
                                                             'sph')
                or _bshape(dcomps) != ())
-    return Outcome('ok', strata=strata, nontrivial=nontriv)
+    return Outcome('ok', strata=strata, nontrivial=nontriv, notes=notes)
 
 
 # --------------------------------------------------------------------------
@@ -1449,6 +1571,11 @@ def run_factory(desc):
                             '= {}'.format(min(dmax[1], -dmin[1]), need))
         strata.append('coverage-evaluated')
         return Outcome('ok', strata=strata, nontrivial=True)
+    if not desc.get('probe', True):
+        # input region of the known findings F31 / K1 (every volume)
+        strata.append('probe-known-regions:False')
+        return Outcome('ok', strata=strata, nontrivial=True,
+                       notes={'excluded:C19-F31/K1': 1})
     if nd == 3:
         covered(r * loc[..., 2] / depth, dmin[1], dmax[1], 'vertical')
     covered(u, dmin[0], dmax[0], 'horizontal')
@@ -1458,10 +1585,14 @@ def run_factory(desc):
 
 def run_case(desc):
     kind = desc['kind']
-    if kind == 'geom':
-        return run_geom(desc)
-    if kind == 'detector':
-        return run_detector(desc)
+    try:
+        if kind == 'geom':
+            return run_geom(desc)
+        if kind == 'detector':
+            return run_detector(desc)
+    except _Excluded as e:
+        return Outcome('excluded', strata=['excluded:' + e.fid],
+                       notes={'excluded:' + e.fid: 1})
     if kind == 'factory':
         return run_factory(desc)
     raise HarnessError('unknown case kind {!r}'.format(kind))
@@ -1889,7 +2020,8 @@ def _geom_case(draw):
         M = 1
         apart = [draw(_angle_part(long=bool(g.get('pitch'))))]
     dpart = draw(_det_parts(kind))
-    desc = {'kind': 'geom', 'g': g, 'apart': apart, 'dpart': dpart,
+    desc = {'kind': 'geom', 'probe': draw(st.integers(0, 4)) == 0,
+            'g': g, 'apart': apart, 'dpart': dpart,
             'pat': draw(_pattern(M, len(dpart), restricted=shifted)),
             'group': [draw(FRACS), draw(FRACS)], 'slice': None}
     if cls != 'par3d_euler' and draw(st.integers(0, 2)) == 0:
@@ -1915,7 +2047,8 @@ def _detector_case(draw):
             [1.0, 0.0, 0.0], [0.0, 0.0, 1.0]]
     dd['axes_mode'], dd['axes'] = mode, axes
     dpart = draw(_det_parts(kind))
-    return {'kind': 'detector', 'det': dd, 'dpart': dpart,
+    return {'kind': 'detector', 'probe': draw(st.integers(0, 4)) == 0,
+            'det': dd, 'dpart': dpart,
             'pat': draw(_pattern(0, len(dpart), joint=False))}
 
 
@@ -1945,7 +2078,8 @@ def _factory_case(draw):
             shape.append(draw(st.integers(2, 10)))
         else:
             shape.append(draw(st.integers(11, 50)))
-    desc = {'kind': 'factory', 'factory': fac,
+    desc = {'kind': 'factory', 'probe': draw(st.booleans()),
+            'factory': fac,
             'space': {'min': mn, 'max': mx, 'shape': shape, 'mode': mode},
             'num_angles': None, 'det_shape': None}
     corners = _corners(mn[:2], mx[:2])
